@@ -142,9 +142,38 @@ class Engine:
         if isinstance(e, (ast.Tuple, ast.List)):
             return ("tuple", tuple(self.ev(x, p, fr) for x in e.elts))
         if isinstance(e, ast.JoinedStr):
-            return ("fstr", ast.unparse(e))
+            parts = []
+            for v in e.values:
+                if isinstance(v, ast.Constant):
+                    parts.append(("lit", str(v.value)))
+                elif isinstance(v, ast.FormattedValue):
+                    spec = ast.unparse(v.format_spec) if v.format_spec is not None else ""
+                    parts.append(("val", self.ev(v.value, p, fr), v.conversion, spec))
+            return ("fstr", tuple(parts))
         if isinstance(e, ast.Await):
             return ("await", self.ev(e.value, p, fr))
+        if isinstance(e, (ast.GeneratorExp, ast.ListComp)) and len(e.generators) == 1 and not e.generators[0].ifs and isinstance(e.generators[0].target, ast.Name):
+            it = self.ev(e.generators[0].iter, p, fr)
+            elems = None
+            if it[0] == "tuple":
+                elems = list(it[1])
+            elif it[0] == "call" and isinstance(it[1], str) and it[1].endswith(".group") or (it[0] == "call" and it[1] == ".group"):
+                nargs = [a for a in it[2] if a[0] == "c" and isinstance(a[1], str)]
+                if len(nargs) >= 2:
+                    elems = [("sub", it, ("c", i)) for i in range(len(nargs))]
+            if elems is not None:
+                k = ("l", fr["id"], e.generators[0].target.id)
+                old = p.store.get(k)
+                out = []
+                for el in elems:
+                    p.store[k] = el
+                    out.append(self.ev(e.elt, p, fr))
+                if old is None:
+                    p.store.pop(k, None)
+                else:
+                    p.store[k] = old
+                return ("tuple", tuple(out))
+            return ("opaque", ast.unparse(e))
         if isinstance(e, (ast.GeneratorExp, ast.ListComp, ast.Lambda, ast.Dict)):
             return ("opaque", ast.unparse(e))
         raise Unsupported(type(e).__name__)
@@ -299,8 +328,19 @@ class Engine:
             ck = M.lookup_class_name(fr["fn"].mod, f.id)
             if ck:
                 return ("new", ck, e.lineno, tuple(args))
+            if f.id in ("tuple", "list") and len(args) == 1 and args[0][0] == "tuple":
+                return args[0]
             if f.id in PURE_BUILTINS:
                 return ("call", f.id, tuple(args), e.lineno)
+            callee = M.funcs.get(f"{fr['fn'].mod}.{f.id}")
+            if callee is None:
+                imp = M.imports.get(fr["fn"].mod, {}).get(f.id)
+                if imp and imp[0] == "symbol":
+                    callee = M.funcs.get(f"{imp[1]}.{imp[2]}")
+            if callee is not None and fr["depth"] < self.depth:
+                r = self.inline_pure(callee, None, args, p, fr)
+                if r is not None:
+                    return r
         if isinstance(f, ast.Attribute):
             base = self.ev(f.value, p, fr)
             ck = self.sv_class(base, fr)
@@ -466,13 +506,14 @@ class Engine:
             return [p]
         if isinstance(s, ast.Try):
             p.effects.append(("try", s.lineno))
+            entry = p.clone()
             body = self.block(s.body, [p], fr)
             out = []
             for q in body:
                 out.append(q)
             # handlers analysed as alternative continuations from the try entry (coarse)
             for h in s.handlers:
-                q = p.clone()
+                q = entry.clone()
                 q.guards.append((("exc", ast.unparse(h.type) if h.type else "BaseException", s.lineno), True, h.lineno))
                 out.extend(self.block(h.body, [q], fr))
             return self.block(s.finalbody, out, fr) if s.finalbody else out
@@ -508,6 +549,8 @@ class Engine:
             ck = M.lookup_class_name(fr["fn"].mod, f.id)
             if ck:
                 return [(p, ("new", ck, e.lineno, tuple(args)))]
+            if f.id in PURE_BUILTINS or f.id in ("tuple", "list"):
+                return [(p, self.call_expr(e, p, fr))]
             callee = M.funcs.get(f"{fr['fn'].mod}.{f.id}")
         may_inline = callee is not None and (self.inline_sub or recv is None or recv == ("self0",) or callee.kind == "static")
         if callee is not None and not may_inline:
@@ -575,6 +618,8 @@ def show_sv(v, d=0):
         return f"{v[1]}({', '.join(show_sv(a) for a in v[2])})"
     if t == "mut":
         return f"{show_sv(v[1])}+{v[2]}"
+    if t == "fstr":
+        return "f'" + "".join(x[1] if x[0] == "lit" else "{" + show_sv(x[1]) + "}" for x in v[1]) + "'"
     if t == "sub":
         return f"{show_sv(v[1])}[{show_sv(v[2])}]"
     if t == "slice":
